@@ -1,6 +1,6 @@
 """C01 -- EQL answers are exactly the satisfying assignments.  Model Eql/Eval.v (hand-written, variable level), Spec
 Eql/Sat.v, theorems Props/C01.v; tie: differential execution of implementation / model / Spec on generated queries
-built through the public API (let, entity, set_of, and_, or_, not_, contains, comparison operators, attribute chains)."""
+built through the public API (let, entity, set_of, and_, or_, not_, contains, comparison operators, attribute chains, indexing, method calls, exists, for_all)."""
 from __future__ import annotations
 
 from . import eqlcheck, eqlgen
@@ -24,7 +24,7 @@ def run(tier: str, seed: int, replay=None) -> int:
         assume=[
             "queries are tree-shaped: every Attribute/Comparator/logical node object occurs once (node reuse is finding class K_sharednode, replayed from its witness)",
             "vocabulary modelled: variables over explicit domains, literals, attribute chains, ==,!=,<,<=,>,>=, contains/in_, and_, or_, not_, entity/set_of; "
-            "exists/for_all are covered by the theorems under the static side conditions wfq / ok TS / ok TC (Props/C01.v: C01_q_sound_complete); the proved fragment of every generated case is the flag case_in_F01 COMPUTED IN COQ (theorem C01_fragment_flag), not a Python predicate; flatten/indexing/calls/predicates/sub-queries are not modelled (findings there are replayed from recorded witnesses)",
+            "exists/for_all are covered by the theorems under the static side conditions wfq / ok TS / ok TC (Props/C01.v: C01_q_sound_complete); the proved fragment of every generated case is the flag case_in_F01 COMPUTED IN COQ (theorem C01_fragment_flag), not a Python predicate; indexing and method calls on attribute values are modelled as one attribute step (functions of the value); flatten, predicates (C12) and sub-queries are not modelled (findings there are replayed from recorded witnesses)",
             "CPython generator protocol and itertools.product",
         ],
         rule=("seeded random queries (harness/eqlgen.py, profile c01): 1-3 variables over object / value-equal-twin / int domains of 0-4 "
